@@ -287,18 +287,23 @@ theorem convItem_congr (c c' : Ctx) (i : Item) (h : AgreeOn c c' (itemRefs i)) :
 def fileRefs (pkg : Str) (elems : List Elem) : List (Str × Str) :=
   (elems.flatMap (itemsOfElem pkg)).flatMap itemRefs
 
-/-- **`ConvertJ5File` depends on the resolver only at the references of the file** -/
-theorem convertFile_congr (res res' : Resolver) (path : Str) (imports : List Import)
+/-- **`ConvertJ5File` depends on the resolver only at the references of the file**, looked up
+through the file's own import map -/
+theorem convertFile_congr' (res res' : Resolver) (path : Str) (imports : List Import)
     (elems : List Elem)
-    (h : ∀ im, AgreeOn { resolve := resolveTypeNoImport im res } { resolve := resolveTypeNoImport im res' }
-      (fileRefs (packageFromFilename (path ++ b!".proto")) elems)) :
+    (h : ∀ im, j5Imports (packageFromFilename (path ++ b!".proto")) imports = .ok im →
+      AgreeOn { resolve := resolveTypeNoImport im res } { resolve := resolveTypeNoImport im res' }
+        (fileRefs (packageFromFilename (path ++ b!".proto")) elems)) :
     convertFile res path imports elems = convertFile res' path imports elems := by
   unfold convertFile
   simp only []
-  cases j5Imports (packageFromFilename (path ++ b!".proto")) imports with
+  cases hj : j5Imports (packageFromFilename (path ++ b!".proto")) imports with
   | err t => rfl
   | panic w => rfl
   | ok im =>
+    have h : ∀ _ : ImportMap, AgreeOn { resolve := resolveTypeNoImport im res }
+        { resolve := resolveTypeNoImport im res' }
+        (fileRefs (packageFromFilename (path ++ b!".proto")) elems) := fun _ => h im hj
     simp only []
     have : (elems.flatMap (itemsOfElem (packageFromFilename (path ++ b!".proto")))).flatMap
         (convItem { resolve := resolveTypeNoImport im res }) =
@@ -312,5 +317,12 @@ theorem convertFile_congr (res res' : Resolver) (path : Str) (imports : List Imp
       unfold fileRefs
       exact List.mem_flatMap.mpr ⟨i, hi, hr⟩
     rw [this]
+
+theorem convertFile_congr (res res' : Resolver) (path : Str) (imports : List Import)
+    (elems : List Elem)
+    (h : ∀ im, AgreeOn { resolve := resolveTypeNoImport im res } { resolve := resolveTypeNoImport im res' }
+      (fileRefs (packageFromFilename (path ++ b!".proto")) elems)) :
+    convertFile res path imports elems = convertFile res' path imports elems :=
+  convertFile_congr' res res' path imports elems (fun im _ => h im)
 
 end J5V.Compile
